@@ -370,6 +370,12 @@ struct Gen {
         int64_t pace = (int64_t)rng.range(100, 1500);
         std::vector<uint32_t> tx;
         if (usable && materialisable(f)) tx = tx_schedule(f, skip_last);
+        bool truncated = false;
+        if (is_big(f) && !tx.empty() && !rng.chance(thorough ? 0.5 : 0.08)) {
+            // most large blocks are only driven for their first few hundred packets (acceptance + partial use); the
+            // whole block is streamed in a minority of runs because it costs seconds under ASan
+            tx.resize(std::min<size_t>(tx.size(), 100 + rng.below(300))); truncated = true; cnt("big_block_truncated");
+        }
         int nrx = (int)rng.range(1, prof == "C12" ? 2 : 3);
         if (prof == "C06") nrx = (int)rng.range(0, 1);
         if (!f.oti.empty() || is_big(f)) nrx = std::min(nrx, 1);
@@ -388,7 +394,7 @@ struct Gen {
                 cnt("twin_receivers");
             }
             if (i == 0) first_arr = arr;
-            receiver(f, rc, rm, arr, t0 + 30 + (int64_t)rng.below(60), sw, rtx, "", "flow");
+            receiver(f, rc, rm, arr, t0 + 30 + (int64_t)rng.below(60), sw, rtx, truncated ? "stream" : "", "flow");
         }
         if (real_sender && rel) {
             // the encoder session is released at a drawn instant, possibly long before the last packet left (early release)
